@@ -637,9 +637,43 @@ class Refused(Exception):
     pass
 
 
+class CaseHang(BaseException):
+    """A single tiny case ran for WATCHDOG seconds (normal: ~0.1 s).  Never a verdict: the
+    shard/replay aborts with a harness error that names the case."""
+
+
+WATCHDOG = int(os.environ.get("C23_WATCHDOG", "600") or "600")
+
+
+@contextlib.contextmanager
+def watchdog(case):
+    import signal
+    import threading
+
+    if threading.current_thread() is not threading.main_thread() or not hasattr(signal, "SIGALRM"):
+        yield
+        return
+
+    def on_alarm(signum, frame):
+        raise CaseHang(f"C23 case still running after {WATCHDOG}s (optimisation loop that never converges?): {util.canon(case)[:600]}")
+
+    old = signal.signal(signal.SIGALRM, on_alarm)
+    signal.alarm(WATCHDOG)
+    try:
+        yield
+    finally:
+        signal.alarm(0)
+        signal.signal(signal.SIGALRM, old)
+
+
 def run_case(case):
     """-> (labels, fails, obs).  obs = what the base array looked like (for the fresh-process comparison)."""
     validate(case)
+    with watchdog(case):
+        return _run_case_guarded(case)
+
+
+def _run_case_guarded(case):
     gc.collect()  # weak caches of earlier cases must not leak into this one
     with warnings.catch_warnings():
         warnings.simplefilter("ignore")
@@ -694,6 +728,13 @@ def _run_case(case, ctr, rand_classes):
         meta_rank_bad = False
     if meta_rank_bad:
         labs.append("meta-rank-mismatch")  # not a C23 failure by itself; used to attribute consumer exceptions
+    # the same object must answer the same name twice (keys are derived from it; optimisation loops compare names)
+    try:
+        n1, n2, n3 = r.name, r.name, r.expr._name
+    except Exception as e:
+        n1 = n2 = n3 = None
+    if not (n1 == n2 == n3):
+        return labs, [(f"name-unstable|{tag}", f"three reads of the name of one random array: {n1}, {n2}, {n3}")], None
     exact = prog_exact(prog)
     tol = {"rtol": 0.0, "atol": 0.0}
 
